@@ -410,7 +410,7 @@ def gen_source(rng, nf, name, flags=(0, 1, 1, 1, 2, 3, 4, 9), min_fit=0):
         valid = [1] * nf
     flux, err = [], []
     for v in valid:
-        f = 10 ** rng.uniform(0, 3)
+        f = 10 ** rng.uniform(-3, 3)           # sources below 1 mJy too: a flag-4 point then carries a NEGATIVE log10 flux
         e = f * 10 ** rng.uniform(-2, -0.5)
         if v in (2, 3):
             e = rng.choice([0., 0.5, 0.9, 1.0])
